@@ -128,7 +128,7 @@ def run(run, tier, seed):
                 "histogram, row c <-> multiplicity c, truncation (threshold scaled to 2); (b) every table length <=7 x every "
                 "sign sequence: the cutoff loop (one TLC step per iteration) = smallest count with negative sign capped at the "
                 "table length, labels. (b) replayed into the hooked find_cutoff at parameter points realising each monotone "
-                "pattern. traces: simulated read pairs (coverage 10-30 quick / 10-80 thorough, error 0-3%, N, both "
+                "pattern. traces: simulated read pairs (a target of about 100 bases whose table is empty; coverage 10-30 quick / 10-80 thorough, error 0-3%, N, both "
                 "orientations), several k, both strand modes through `ska cov` (stdout table, stderr cutoff) and the hooked "
                 "fit; TLC recomputes the exact multiplicity histogram and checks indexing, truncation, cutoff and labels from "
                 "the numeric oracle's sign observations; likelihood/gradient identity at random points. non-trivial = converged "
@@ -206,6 +206,10 @@ def run(run, tier, seed):
                 hist = {1: 1500, 2: 150, 9: 60, 10: 110, 11: 160, 12: 200, 13: 160, 14: 110, 15: 70, 18: 80, 19: last, 20: 49, 21: 20}
                 reads = designed_reads(rng, k, hist)
                 cov, glen = 12, sum(hist.values())
+            elif ri == 2 or (ri > 8 and ri % 8 == 2):
+                # a very small target read without errors: no multiplicity is shared by 50 k-mers, the table is empty (cutoff 1)
+                glen = rng.randint(k + 60, k + 140)
+                reads = simulate_reads(rng, glen, cov, 0.0, k)
             else:
                 reads = simulate_reads(rng, glen, cov, rng.choice([0.0, 0.005, 0.01, 0.03]), k)
             half = len(reads) // 2
@@ -254,6 +258,9 @@ def run(run, tier, seed):
                            "ctx": {"reads1": [b(r) for r in reads[:half]], "reads2": [b(r) for r in reads[half:]], "k": k, "rc": rc},
                            "table": table, "cutoff": cut[0] if cut else -1, "cutoff_fit": fit["cutoff"], "counts": fit["counts"],
                            "neg": neg, "grad_ok": grad_ok, "w0": w0, "c": c, "coverage": cov, "genome": glen})
+            if n == 0:
+                run.nontriv(["cov-empty", reads[:3], k, rc, len(reads)])
+                run.extra["empty_table_runs"] = run.extra.get("empty_table_runs", 0) + 1
             if n >= 2 and 1 < fit["cutoff"] < n:
                 run.nontriv(["cov", reads[:3], k, rc, len(reads)])
             if n >= 2 and fit["cutoff"] == n:
